@@ -297,9 +297,7 @@ def format_code(
     if minimum_indent > 0:
         source = textwrap.indent(source, " " * minimum_indent)
 
-    minimized_source, *_ = processing.minimize_whitespace_line_differences(original_source, source)
-    if core.keeps_syntax_tree(source, minimized_source):  # A blank line may be a line of a string
-        source = minimized_source
+    source, *_ = processing.minimize_whitespace_line_differences(original_source, source)
 
     return source
 
